@@ -36,6 +36,11 @@ relab = z3.Function("relab", Key, z3.ArraySort(Label, Int), Key)   # tuple(mappi
 srt = z3.Function("srt", Key, Key)                                  # tuple(sorted(key)) for integer labels
 nonnegvals = z3.Function("nonnegvals", z3.ArraySort(Label, Bool), z3.ArraySort(Label, Int), Bool)   # mapping values are ints >= 0
 linked = z3.Function("linked", z3.ArraySort(Label, Bool), z3.ArraySort(Label, Int), Bool)   # x == a o mapping on dom
+LSet_ = z3.ArraySort(Label, Bool)
+fout = z3.Function("fout", Key, LSet_, Key)       # subsequence of the members of a key that are NOT in the set
+fin = z3.Function("fin", Key, LSet_, Key)         # subsequence of the members that are in the set
+vprod = z3.Function("vprod", Key, z3.ArraySort(Label, Bool), z3.ArraySort(Label, Real), Real)   # prod of d.get(i, 0)
+vlinked = z3.Function("vlinked", Bool, LSet_, z3.ArraySort(Label, Bool), z3.ArraySort(Label, Real), Bool)
 LSet = z3.ArraySort(Label, Bool)                  # a set of labels as a characteristic array
 memset = z3.Function("memset", Key, LSet)         # the set of members of a key
 CARD = z3.Function("CARD", LSet, Int)             # cardinality of a finite label set
@@ -51,6 +56,7 @@ LEMMAS = {
     "L6/L7-slack": "slack(a0,n,log) = sum of w_i*a_i over the n ancilla bits is an integer in [0, cap(n)], cap = 2^n - 1 (log) or n (unary); every integer in that range is attained by some setting of the bits (existence is used only at the meta level, see DESIGN 11.7)",
     "L8-num_bits": "num_bits(v, log_trick) = n with cap(n) >= v for v >= 0",
     "L9-relabel": "if x = a o m on dom(m) and every label of k is mapped then mono_a(relab(k, m)) == mono_x(k) (boolean and spin); relab keeps the length and maps positions pointwise",
+    "L10-split": "product over a key = product over its members in S times product over its members outside S; a subsequence of a canonical key is canonical; if the assignment takes the values d.get(i,0) on the labels concerned, prod of those values is the monomial",
     "set-facts": "memset of empty/unit/concat; members(sorted(set k)) = members(k); members(ssq k) subset members(k); |S + {i}| = |S| + [i not in S]",
     "sq-shape": "sq(k) is duplicate-free, sorted, idempotent, no longer than k, members(sq k) subset members(k), identity on length <= 1",
 }
@@ -321,6 +327,43 @@ class Facts:
         self.add(z3.Implies(z3.And(n >= 2), r[1] == z3.Select(mval, k[1])))
         self.used.add("L9-relabel")
         return r, ok
+
+    # ---- splitting a key by membership in a set (C18: subvalue / subgraph)
+    def split(self, k, S):
+        """(fout(k,S), fin(k,S)) with lemma L10: the product over k is the product over its two complementary
+        subsequences; a subsequence of a canonical key is canonical; members are partitioned by S"""
+        self.enable_sets()
+        self.key(k)
+        fo, fi = fout(k, S), fin(k, S)
+        h = ("split", k.get_id(), S.get_id())
+        if h in self._seen_keys:
+            return fo, fi
+        self._seen_keys.add(h)
+        self.key(fo)
+        self.key(fi)
+        for g in self.ghosts:
+            _, _, bmf, smf, _ = GHOSTS[g]
+            self.add(z3.And(bmf(k) == bmf(fo) * bmf(fi), smf(k) == smf(fo) * smf(fi)))
+        self.add(z3.Length(fo) + z3.Length(fi) == z3.Length(k))
+        notS = z3.Map(z3.Not(self._p).decl(), S)
+        self.add(self.memset_of(fo) == self.set_inter(self.memset_of(k), notS))
+        self.add(self.memset_of(fi) == self.set_inter(self.memset_of(k), S))
+        self.add(z3.Implies(bsq(k) == k, z3.And(bsq(fo) == fo, bsq(fi) == fi)))
+        self.add(z3.Implies(ssq(k) == k, z3.And(ssq(fo) == fo, ssq(fi) == fi)))
+        self.add(z3.Implies(matvalid(k), z3.And(matvalid(fo), matvalid(fi))))
+        self._sqs.append((False, fo, fo))      # so that later set facts know these keys
+        self.used.add("L10-split")
+        return fo, fi
+
+    def value_product(self, kpart, spin, Sinside, S, vdom, vval):
+        """np.prod([d.get(i, 0) or d[i] for i in kpart]); under the link (the ghost assignment takes the values of d on
+        the labels concerned) it is the monomial of kpart"""
+        p = vprod(kpart, vdom, vval)
+        lk = vlinked(z3.BoolVal(spin), S if Sinside else z3.Map(z3.Not(self._p).decl(), S), vdom, vval)
+        self.add(z3.Implies(lk, p == (smono(kpart) if spin else bmono(kpart))))
+        self.add(z3.Implies(z3.Length(kpart) == 0, p == 1))
+        self.used.add("L10-split")
+        return p, lk
 
     def sorted_key(self, k):
         """tuple(sorted(k)) for integer labels: a permutation"""
